@@ -227,7 +227,7 @@ func TestC15Histories(t *testing.T) {
 	for _, f := range functions() {
 		f := f
 		t.Run(f.name, func(t *testing.T) {
-			vlib.Check(t, vlib.N(260, 2200)/f.cost, func(t *rapid.T) {
+			vlib.Check(t, vlib.N(260, 1200)/f.cost, func(t *rapid.T) {
 				sp := f.mk(t)
 				sp.Sub = f.name
 				sp.Key = "C15/" + f.name
